@@ -227,7 +227,13 @@ def gen_free_case(rng, small=False):
                 lines.append(text)
             else:
                 del ms.m[n]
-        elif r < 0.20:
+        elif r < 0.04 + 0.12 and ms.m:
+            # macro names on a #pragma line are not expanded (and a function-like name at its end takes no arguments
+            # from the next line): the line after it is ordinary text
+            n = rng.choice(list(ms.m))
+            lines.append(rng.choice(['#pragma %s', '#pragma p %s', '#pragma %s (', '#pragma x ( %s , 1']) % n)
+            lines.append(join(rng, ['(', rng.choice(LITS), ')'] + gen_seq(rng, ms, rng.randint(1, 3), 0)))
+        elif r < 0.24:
             lines.append(rng.choice(['#', '# ', '#pragma once', '#pragma STDC FP_CONTRACT ON', '#line 77', '#line 5 "q.c"', '# 3 "z.c"', '# 4 "z.c" 3', '#undef NOSUCH']))
         else:
             toks = gen_seq(rng, ms, rng.randint(1, 5), 0)
